@@ -370,6 +370,10 @@ func c13RestartDirected() []*sim.Scn {
 		// time, with slow goroutines: what seeds the empty stores and the first publication are due at the same instant
 		{Cfg: map[string]int64{"restart": 1, "nfull": 0, "bt": 500, "dat": 1000, "eager": 1, "repeat": 8, "readlat": 3},
 			Ops: []sim.Op{{K: "run", A: 1200}, {K: "kill", A: 0}, {K: "run", A: 2000}, {K: "start", A: 0}, {K: "run", A: 4000}}},
+		// a clean stop of the sequencer in the middle of a submission that the DA layer completes and acknowledges all
+		// the same: what it notes on the way down must be in what it saves
+		{Cfg: map[string]int64{"restart": 1, "nfull": 0, "bt": 250, "dat": 1000, "deafda": 1, "dalat": 900, "repeat": 3},
+			Ops: []sim.Op{{K: "run", A: 3000}, {K: "tx", B: 1}, {K: "run", A: 700}, {K: "stop", A: 0}, {K: "start", A: 0}, {K: "run", A: 4000}}},
 		// found with scheduling jitter: a full node starts while the sequencer publishes; the gossiped head and the
 		// first sync of go-header's syncer append the same header (repaired in the store wrapper, cd64817)
 		{Cfg: map[string]int64{"restart": 1, "nfull": 0, "bt": 500, "dat": 1000, "dalat": 5, "lazy": 1, "jitter": 4000, "jsalt": 453177065, "repeat": 24},
